@@ -208,7 +208,7 @@ func replaySaved(path string) int {
 		fmt.Fprintln(os.Stderr, err)
 		return 2
 	}
-	work := filepath.Join(verifDir, ".work", fmt.Sprintf("replay-%d", os.Getpid()))
+	work := filepath.Join(outDir, ".work", fmt.Sprintf("replay-%d", os.Getpid()))
 	os.MkdirAll(work, 0755)
 	defer os.RemoveAll(work)
 	r := &propRun{prop: sr.Property, tier: sr.Tier, work: work, ld: ld}
